@@ -1,6 +1,7 @@
 package tokenizers
 
 import (
+	"github.com/pip-services3-gox/pip-services3-expressions-gox/io"
 	"github.com/pip-services3-gox/pip-services3-expressions-gox/tokenizers"
 	"github.com/pip-services3-gox/pip-services3-expressions-gox/tokenizers/generic"
 )
@@ -9,6 +10,8 @@ type MustacheTokenizer struct {
 	*tokenizers.AbstractTokenizer
 	special      bool
 	specialState tokenizers.ITokenizerState
+	stream       io.IScanner // the stream the current mode belongs to
+	afterUnknown bool        // the last token read inside a tag was of type Unknown
 }
 
 func NewMustacheTokenizer() *MustacheTokenizer {
@@ -56,8 +59,11 @@ func (c *MustacheTokenizer) ReadNextToken() *tokenizers.Token {
 		return nil
 	}
 
-	// Check for initial state
-	if c.NextTokenValue == nil && c.LastTokenType == tokenizers.Unknown {
+	// Check for initial state: a new stream, or a stream assigned again before anything was read.
+	// (LastTokenType is Unknown after SetReader, but also after an Unknown token inside a tag.)
+	if c.Scanner != c.stream || (c.NextTokenValue == nil && c.LastTokenType == tokenizers.Unknown && !c.afterUnknown) {
+		c.stream = c.Scanner
+		c.afterUnknown = false
 		c.special = true
 	}
 
@@ -72,6 +78,7 @@ func (c *MustacheTokenizer) ReadNextToken() *tokenizers.Token {
 	// Proces other tokens
 	c.special = false
 	token := c.AbstractTokenizer.ReadNextToken()
+	c.afterUnknown = token != nil && token.Type() == tokenizers.Unknown
 	// Switch to quote when '{{' or '{{{' symbols found
 	if token != nil && token.Type() == tokenizers.Symbol && (token.Value() == "}}" || token.Value() == "}}}") {
 		c.special = true
